@@ -3,6 +3,7 @@
 // fallback (SCSV) or an avoidable downgrade makes the handshake fail.
 // Two independently configured endpoints + a man in the middle that rewrites single hello fields (well-formed).
 #include "driver.h"
+#include <set>
 #include "world.h"
 #include "peek.h"
 
@@ -116,6 +117,15 @@ static Plan c07_gen(uint64_t seed, int tier, uint64_t index) {
         }
         if (r.chance(1, 3)) { p.cfg["cauth"] = KK_RSA2048; }
     }
+    if (r.chance(1, 4)) {
+        // the server application disables / re-enables suites for this session: ops over the client's offered suites
+        int nops = 1 + (int) r.below(6);
+        for (int i = 0; i < nops; i++) {
+            int which = 1 + (int) r.below((uint64_t) (k - 1));
+            uint16_t su = (uint16_t) p.get(which == 1 ? std::string("suite") : "suite" + std::to_string(which));
+            p.cfg["dsq" + std::to_string(i)] = (int64_t) su * 2 + (r.chance(1, 3) ? 1 : 0);
+        }
+    }
     if (r.chance(1, 5)) { p.cfg["ems_c"] = -1; }
     if (r.chance(1, 6)) { p.cfg["ems_s"] = 1; }
     if (r.chance(1, 4)) { p.cfg["fallback"] = 1; }
@@ -141,6 +151,22 @@ static std::vector<Plan> c07_fixed(int tier) {
         p.ops.push_back(Op("send", 0, 50)); p.ops.push_back(Op("send", 1, 50));
         v.push_back(p);
     } }
+    // per-session suite status sequences on the server: disable X, disable Y, re-enable X (and permutations with a third suite), the client
+    // preferring each suite in turn - the suite in force must never be one that is disabled at the end of the sequence
+    {
+        static const uint16_t S12[] = { TLS_RSA_WITH_AES_128_CBC_SHA, TLS_RSA_WITH_AES_256_CBC_SHA, TLS_RSA_WITH_AES_128_GCM_SHA256 };
+        static const uint16_t S13[] = { TLS_AES_128_GCM_SHA256, TLS_AES_256_GCM_SHA384, TLS_CHACHA20_POLY1305_SHA256 };
+        static const int SEQ[][4][2] = { { {0,0},{1,0},{0,1},{-1,0} }, { {1,0},{0,0},{1,1},{-1,0} }, { {0,0},{1,0},{2,0},{0,1} }, { {0,0},{1,0},{0,1},{0,0} }, { {2,0},{1,0},{2,1},{-1,0} }, { {0,0},{0,1},{1,0},{-1,0} } };
+        for (int fam = 0; fam < 2; fam++) { for (int sq = 0; sq < 6; sq++) { for (int first = 0; first < 3; first++) { for (int only = 0; only < 2; only++) {
+            Plan p; p.seed = 75000 + (uint64_t) (((fam * 6 + sq) * 3 + first) * 2 + only);
+            const uint16_t *S = fam ? S13 : S12;
+            p.cfg["dtls"] = 0; p.cfg["vers_c"] = fam ? 4 : 2; p.cfg["vers_s"] = fam ? 4 : 2; p.cfg["sid_kind"] = KK_RSA2048;
+            p.cfg["suite"] = S[first]; if (!only) { p.cfg["suite2"] = S[(first + 1) % 3]; p.cfg["suite3"] = S[(first + 2) % 3]; }
+            for (int i = 0; i < 4; i++) { if (SEQ[sq][i][0] >= 0) { p.cfg["dsq" + std::to_string(i)] = (int64_t) S[SEQ[sq][i][0]] * 2 + SEQ[sq][i][1]; } }
+            p.ops.push_back(Op("send", 0, 50)); p.ops.push_back(Op("send", 1, 50));
+            v.push_back(p);
+        } } } }
+    }
     // signature-scheme lists: every ordered non-empty list pair over the three RSA-PSS schemes (rotations of each subset), with and without client authentication
     {
         static const uint16_t PSS[] = { 0x0804, 0x0805, 0x0806 };
@@ -241,6 +267,18 @@ static RunResult c07_exec(const Plan &p) {
                 // a configuration the API itself refuses (e.g. TLS 1.3 enabled without a 1.3 suite): nothing to judge
                 res.count("config_refused_by_api");
             } else {
+                // per-session cipher suite status on the server session (matrixSslSetCipherSuiteEnabledStatus), applied before the first byte arrives;
+                // the model is a plain set
+                std::set<uint32_t> srv_disabled;
+                for (int i = 0; i < 8; i++) {
+                    int64_t o = p.get("dsq" + std::to_string(i), -1);
+                    if (o < 0) { continue; }
+                    uint16_t su = (uint16_t) (o >> 1); bool enable = (o & 1) != 0;
+                    vsim_set_node(NODE_SERVER);
+                    int32_t rc = matrixSslSetCipherSuiteEnabledStatus(w.srv->ssl, su, enable ? PS_TRUE : PS_FALSE);
+                    vsim_set_node(NODE_HARNESS);
+                    if (rc == PS_SUCCESS) { if (enable) { srv_disabled.erase(su); } else { srv_disabled.insert(su); } res.count(enable ? "suite_status.enabled" : "suite_status.disabled"); }
+                }
                 w.handshake();
                 bool cc = w.cli->is_complete(), sc = w.srv->is_complete();
                 int64_t vc = p.get("vers_c"), vs = p.get("vers_s");
@@ -267,7 +305,8 @@ static RunResult c07_exec(const Plan &p) {
                         else if (vi != top_bit(common)) { res.violate("not_highest_version", ctx, std::string("negotiated ") + ver_name(nvc) + " although a higher version is enabled on both sides (default priorities)"); }
                         else {
                             bool offered = pc.suites.empty(); for (auto s : pc.suites) { if (s == nsc) { offered = true; } }
-                            if (!offered) { res.violate("param_not_mutual", "suite," + ctx, std::string("negotiated suite ") + suite_name((uint16_t) nsc) + " was not offered by the client"); }
+                            if (srv_disabled.count(nsc)) { res.violate("param_not_mutual", "suite_disabled_on_server_session", std::string("negotiated suite ") + suite_name((uint16_t) nsc) + " although the server application disabled it for this session (and did not re-enable it)"); }
+                            else if (!offered) { res.violate("param_not_mutual", "suite," + ctx, std::string("negotiated suite ") + suite_name((uint16_t) nsc) + " was not offered by the client"); }
                         }
                         if (!res.violation && nvc == v_tls_1_3) {
                             // key-exchange group: one both sides enabled (an endpoint without an explicit list enables the four defaults)
